@@ -751,7 +751,14 @@ def run(ses, rep):
                         "a mismatch whose `original` is empty is an insertion before original_start_line"]
     rep.outside += ["the unified / standard / summary texts are produced by `similar` / `console`: outside the encoding (the `no diff iff formatted` "
                     "dispatch is covered by C13)"]
+    global K_OPS
+    K_OPS = 3 if rep.tier == "quick" else 5
     flagged = analyse(ses, rep) + wiring(ses, rep) + nodiff(ses, rep)
+    if rep.tier != "quick":       # thorough: the op-list model of the unified producer is decided as well when ratio() is what the code consults
+        try:
+            flagged += [f for f in nodiff_ops_model(ses, rep, "output_diff_unified")]
+        except Inconclusive as e:
+            rep.extra["ops_model_not_applicable"] = str(e)[:200]
     rep.samples.append({"flagged": [(f[0], f[1]) for f in flagged][:6]})
     if flagged:
         fails = battery()
